@@ -111,6 +111,8 @@ class ImageBatch(DataTensor):
         dim = kwargs.get("dim", 0)
         if func in (torch.tensor_split, Tensor.tensor_split) and len(args) > 2:
             dim = args[2]
+        if isinstance(dim, int) and dim < 0 and isinstance(args[0], Tensor):
+            dim += args[0].ndim
         if dim == 0:
             if func == torch.cat:
                 return [g for grid in grids for g in grid]
